@@ -260,3 +260,6 @@ func verifV1RandRoundTrip(a, b JsonNode, metadata []Metadata) string {
 func verifV1RandPatch(a, b JsonNode) string { return verifV1Patch(a, b) }
 
 func verifV1RandMerge(a, b JsonNode) string { return verifV1Merge(a, b) }
+
+// verifV1PointerPatch (C18): verifV1Patch over documents whose keys need pointer escaping.
+func verifV1PointerPatch(a, b JsonNode) string { return verifV1Patch(a, b) }
